@@ -16,6 +16,10 @@ pub fn spec_for(prop: &str) -> Option<Spec> {
         "C10" => Spec { gen: crate::node_gen::generate, quick_runs: 30_000, thorough_runs: 1_500_000 },
         "C11" => Spec { gen: crate::node_gen::generate, quick_runs: 30_000, thorough_runs: 1_500_000 },
         "C12" => Spec { gen: crate::node_gen::generate, quick_runs: 30_000, thorough_runs: 1_500_000 },
+        "C08" => Spec { gen: crate::dev_gen::generate, quick_runs: 20_000, thorough_runs: 1_000_000 },
+        "C09" => Spec { gen: crate::dev_gen::generate, quick_runs: 20_000, thorough_runs: 1_000_000 },
+        "C13" => Spec { gen: crate::dev_gen::generate, quick_runs: 20_000, thorough_runs: 1_000_000 },
+        "C20" => Spec { gen: crate::dev_gen::generate, quick_runs: 20_000, thorough_runs: 1_000_000 },
         _ => return None,
     })
 }
@@ -23,6 +27,7 @@ pub fn spec_for(prop: &str) -> Option<Spec> {
 pub fn execute(plan: &Plan, ctx: &mut Ctx) {
     match plan.world.as_str() {
         "node" => crate::node_oracles::execute(plan, ctx),
+        "device" => crate::dev_oracles::execute(plan, ctx),
         other => ctx.violate("HARNESS", "unknown_world", other, format!("unknown world {:?}", other)),
     }
 }
@@ -30,6 +35,7 @@ pub fn execute(plan: &Plan, ctx: &mut Ctx) {
 pub fn simplify(plan: &Plan) -> Vec<Plan> {
     match plan.world.as_str() {
         "node" => crate::node_gen::simplify(plan),
+        "device" => crate::dev_gen::simplify(plan),
         _ => Vec::new(),
     }
 }
